@@ -160,6 +160,9 @@ namespace bloch::compiler {
                 if (seenPackage) {
                     reportError("Only one package declaration is allowed per file");
                 }
+                if (!program->imports.empty()) {
+                    reportError("The package declaration must appear before any import");
+                }
                 program->packageDecl = parsePackageDeclaration();
                 seenPackage = true;
                 continue;
